@@ -410,16 +410,17 @@ token by token (`hfmt`), every item inverts its token in front of the following 
 setter calls succeed on an empty record (`hset`), then `parse_from_str` of the formatted text is the
 resolution of exactly those fields.
 What is still NOT covered by a round-trip theorem, so that only this reduction is proved for it (these
-cases are compared with the crate, checked by the round-trip oracle and by the validation of the
-specification `pf.sp`):
+cases are compared with the crate and checked by the round-trip oracle; the specification predicts nothing
+for them, which the harness records as the excluded class `rfc3339-item` — `pf.spl`):
 * `%+` (the RFC 3339 item) next to other items in one format string: `family_roundtrip_rfc3339_item`
   covers the format strings that consist of `%+` alone (its reader `parse_rfc3339_relaxed` is then
   started on a fresh record and must consume the whole text); the specification keeps the item out of
   `Spec.Unambiguous` (`invertible`);
 * the `Z`-printing offset items (no specifier produces them: `items_are_proved`).
-No longer listed here: a fraction item directly after a white-space item is OUTSIDE the family since
+No longer listed here: `%.f` directly after a white-space item is OUTSIDE the family since
 `Spec.spaceSafe` became part of `Spec.Unambiguous` (`%S %.f .%3f` really does not round-trip in the
-crate; the unambiguous members `%S %.f`, `%S %3f` … are compared and checked by the oracle only);
+crate; the unambiguous member `%S %.f` is compared and checked by the oracle only; the fixed-width fraction
+items after white space, `%S %3f`, `%S %.3f` …, are inside the family since the second review);
 zone-aware values whose truncated wall clock is no instant of the range at the printed offset are
 characterised by `family_roundtrip_zoned_total` / `_excluded` (IMPOSSIBLE); a wall clock outside the range
 of `NaiveDate` makes `Spec.truncate_to_precision` predict nothing (the crate answers OUT_OF_RANGE; compared,
